@@ -16,75 +16,9 @@
    Printing conventions (stated): `arguments: null` = no arguments; a numeric Literal corresponds to the
    GraphQL int/float literal with the same decimal text; selection order and response aliases are not
    compared (aliases are C12's subject).  Schema from the file named by SCHEMA (Operation.tla).        *)
-EXTENDS Operation
+EXTENDS Artifacts
 
 Rec == ndJsonDeserialize(IOEnv.TRACE)
-
-\* canonical argument values: one record shape for both sides so that TLC can compare them
-CV(t, s, c, f) == [t |-> t, s |-> s, c |-> c, f |-> f]
-
-RECURSIVE OpVal(_)
-OpVal(v) ==
-  CASE v.t = "var"   -> CV("var", v.n, <<>>, <<>>)
-    [] v.t = "int"   -> CV("num", v.v, <<>>, <<>>)
-    [] v.t = "float" -> CV("num", v.v, <<>>, <<>>)
-    [] v.t = "str"   -> CV("str", "", v.cps, <<>>)
-    [] v.t = "bool"  -> CV("bool", IF v.v THEN "true" ELSE "false", <<>>, <<>>)
-    [] v.t = "null"  -> CV("null", "", <<>>, <<>>)
-    [] v.t = "enum"  -> CV("enum", v.v, <<>>, <<>>)
-    [] v.t = "list"  -> CV("list", "", <<>>, [i \in DOMAIN v.items |-> <<"", OpVal(v.items[i])>>])
-    [] v.t = "obj"   -> CV("obj", "", <<>>, [i \in DOMAIN v.fields |-> <<v.fields[i][1], OpVal(v.fields[i][2])>>])
-
-RECURSIVE NormVal(_)
-NormVal(a) ==
-  CASE a.kind = "Variable" -> CV("var", a.name, <<>>, <<>>)
-    [] a.kind = "Literal"  -> (CASE a.lit = "num"  -> CV("num", a.text, <<>>, <<>>)
-                                 [] a.lit = "bool" -> CV("bool", a.text, <<>>, <<>>)
-                                 [] a.lit = "null" -> CV("null", "", <<>>, <<>>)
-                                 [] OTHER -> CV("unknown-literal", a.text, <<>>, <<>>))
-    [] a.kind = "String"   -> CV("str", "", a.cps, <<>>)
-    [] a.kind = "Enum"     -> CV("enum", a.value, <<>>, <<>>)
-    [] a.kind = "Object"   -> CV("obj", "", <<>>, [i \in DOMAIN a.value |-> <<a.value[i][1], NormVal(a.value[i][2])>>])
-    [] OTHER -> CV("unknown", a.kind, <<>>, <<>>)
-
-HeadOf(k, name, args, n) == [k |-> k, name |-> name, args |-> args, nargs |-> n]
-OpHead(s) ==
-  CASE s.t = "field"  -> HeadOf("field", s.name, {<<s.args[i][1], OpVal(s.args[i][2])>> : i \in DOMAIN s.args}, Len(s.args))
-    [] s.t = "inline" -> HeadOf("inline", s.on, {}, 0)
-    [] OTHER          -> HeadOf("spread", s.name, {}, 0)
-NormHead(n) ==
-  CASE n.kind \in {"Scalar", "Linked"} -> HeadOf("field", n.fieldName, {<<n.arguments[i][1], NormVal(n.arguments[i][2])>> : i \in DOMAIN n.arguments}, Len(n.arguments))
-    [] n.kind = "InlineFragment"       -> HeadOf("inline", n.type, {}, 0)
-    [] OTHER                           -> HeadOf("unknown", n.kind, {}, 0)
-
-RECURSIVE Diff(_, _, _)
-PairErrs(o, n, p) ==
-  IF o.t = "inline" THEN Diff(o.selections, n.selections, IF o.on = "" THEN p ELSE o.on)
-  ELSE IF o.t # "field" THEN {}
-  ELSE LET opLinked == Len(o.selections) > 0  nLinked == n.kind = "Linked" IN
-       IF opLinked # nLinked THEN {E("linked-field-on-one-side-scalar-on-the-other", o.name)}
-       ELSE IF ~opLinked THEN {}
-       ELSE IF ~FieldDefined(p, o.name) THEN {}        \* the parent type does not define the field: C09's finding, nothing to compare against
-       ELSE LET base == TBase(FDef(p, o.name).type) IN
-               (IF KindOf(base) = "object"
-                THEN IF n.concrete.some /\ n.concrete.name = base THEN {} ELSE {E("concrete-type-missing-or-wrong-where-schema-type-is-an-object-type", o.name)}
-                ELSE IF n.concrete.some THEN {E("concrete-type-given-where-schema-type-is-abstract", o.name)} ELSE {})
-          \cup Diff(o.selections, n.selections, base)
-
-Diff(os, ns, p) ==
-  LET oh == [i \in DOMAIN os |-> OpHead(os[i])]
-      nh == [i \in DOMAIN ns |-> NormHead(ns[i])]
-  IN   {E("operation-selection-without-counterpart-in-normalization-ast", oh[i].name) : i \in {j \in DOMAIN os : \A m \in DOMAIN ns : nh[m] # oh[j]}}
-  \cup {E("normalization-ast-selection-without-counterpart-in-operation", nh[i].name) : i \in {j \in DOMAIN ns : \A m \in DOMAIN os : oh[m] # nh[j]}}
-  \cup {E("selection-repeated-in-operation", oh[i].name) : i \in {j \in DOMAIN os : \E m \in DOMAIN os : m < j /\ oh[m] = oh[j]}}
-  \cup {E("selection-repeated-in-normalization-ast", nh[i].name) : i \in {j \in DOMAIN ns : \E m \in DOMAIN ns : m < j /\ nh[m] = nh[j]}}
-  \cup UNION {PairErrs(os[x[1]], ns[x[2]], p) : x \in {y \in (DOMAIN os) \X (DOMAIN ns) : oh[y[1]] = nh[y[2]]}}
-
-PairResult(pr) ==
-  IF ~pr.norm.present THEN {E("normalization-ast-artifact-missing", pr.norm.path)}
-  ELSE IF ~pr.norm.parses THEN {E("normalization-ast-artifact-is-not-typescript", pr.norm.path)}
-  ELSE IF ~pr.norm.shape THEN {E("normalization-ast-artifact-has-no-selections", pr.norm.path)}
-  ELSE Diff(pr.op.selections, pr.norm.selections, RootType(pr.op.kind))
 
 VARIABLE l
 Init == l = 1
